@@ -437,6 +437,158 @@ theorem target_called_only_by_execute (s : State) (x : Op) :
     | setMinDelay d => injection h with h; subst h; exact Or.inl rfl
     | advance n => obtain ⟨_, rfl⟩ := advance_ok h; exact Or.inl rfl
 
+/-! ### completeness: a call succeeds exactly under the coded conditions -/
+
+/-- `schedule_operation` succeeds iff the id is Unset and the delay is at least the minimum
+delay in force (which must be set) -/
+theorem schedule_succeeds_iff (s : State) (op : Operation) (d : Nat) :
+    (∃ s', schedule s op d = .ok s') ↔
+      getOperationState s op.id = .unset ∧ ∃ m, s.minDelay = some m ∧ m ≤ d := by
+  constructor
+  · rintro ⟨s', h⟩
+    obtain ⟨m, hm, hmd, h0, _⟩ := schedule_ok h
+    exact ⟨stateOf_unset.mpr h0, m, hm, hmd⟩
+  · rintro ⟨hu, m, hm, hmd⟩
+    have hex : operationExists s op.id = false := by unfold operationExists; rw [hu]; rfl
+    unfold schedule getMinDelay scheduleWith
+    rw [hex, hm]
+    simp only [Bool.false_eq_true, if_false]
+    rw [if_neg (by omega)]
+    exact ⟨_, rfl⟩
+
+/-- `set_execute_operation` succeeds iff the operation is Ready and its predecessor is zero or Done -/
+theorem execute_succeeds_iff (s : State) (op : Operation) :
+    (∃ s', setExecute s op = .ok s') ↔
+      getOperationState s op.id = .ready ∧ (op.pred = Id.zero ∨ getOperationState s op.pred = .done) := by
+  constructor
+  · rintro ⟨s', h⟩
+    obtain ⟨h2, hn, hp, _⟩ := setExecute_ok h
+    refine ⟨stateOf_ready.mpr ⟨h2, hn⟩, ?_⟩
+    rcases hp with hz | h1
+    · exact Or.inl hz
+    · exact Or.inr (stateOf_done.mpr h1)
+  · rintro ⟨hr, hp⟩
+    have hrd : isOperationReady s op.id = true := by unfold isOperationReady; rw [hr]; rfl
+    unfold setExecute
+    rw [hrd]
+    simp only [Bool.not_true, Bool.false_eq_true, if_false]
+    rcases hp with hz | hd
+    · rw [if_neg (by intro h; exact h.1 hz)]; exact ⟨_, rfl⟩
+    · have hdn : isOperationDone s op.pred = true := by unfold isOperationDone; rw [hd]; rfl
+      rw [if_neg (by rw [hdn]; intro h; exact absurd h.2 (by decide))]; exact ⟨_, rfl⟩
+
+/-- `execute_operation` succeeds iff moreover the target accepts the call -/
+theorem execute_call_succeeds_iff (s : State) (op : Operation) (ok : Bool) :
+    (∃ s', execute s op ok = .ok s') ↔
+      getOperationState s op.id = .ready ∧ (op.pred = Id.zero ∨ getOperationState s op.pred = .done) ∧
+        ok = true := by
+  constructor
+  · rintro ⟨s', h⟩
+    obtain ⟨s1, h1, hok, _⟩ := execute_ok h
+    obtain ⟨hr, hp⟩ := (execute_succeeds_iff s op).mp ⟨s1, h1⟩
+    exact ⟨hr, hp, hok⟩
+  · rintro ⟨hr, hp, hok⟩
+    obtain ⟨s1, h1⟩ := (execute_succeeds_iff s op).mpr ⟨hr, hp⟩
+    unfold execute invokeTarget
+    rw [h1, hok]
+    exact ⟨_, rfl⟩
+
+/-- `cancel_operation` succeeds iff the operation is pending (Waiting or Ready) -/
+theorem cancel_succeeds_iff (s : State) (id : Id) :
+    (∃ s', cancel s id = .ok s') ↔
+      getOperationState s id = .waiting ∨ getOperationState s id = .ready := by
+  constructor
+  · rintro ⟨s', h⟩
+    obtain ⟨h2, _⟩ := cancel_ok h
+    exact stateOf_ge_two h2
+  · intro hp
+    have hpe : isOperationPending s id = true := by
+      unfold isOperationPending
+      rcases hp with h | h <;> rw [h] <;> rfl
+    unfold cancel
+    rw [hpe]
+    exact ⟨_, rfl⟩
+
+/-- the same in terms of the history (ghost log), in every reachable state: scheduling succeeds
+iff the last accepted call about the id is a cancel or there is none, and the delay suffices -/
+theorem schedule_succeeds_iff_history {s : State} (hi : Inv s) (op : Operation) (d : Nat) :
+    (∃ s', schedule s op d = .ok s') ↔
+      ghost s.log op.id = .unset ∧ ∃ m, s.minDelay = some m ∧ m ≤ d := by
+  rw [schedule_succeeds_iff]
+  have hrep := (state_reported_correctly hi op.id).1
+  constructor
+  · rintro ⟨hu, hm⟩
+    refine ⟨?_, hm⟩
+    rw [hrep] at hu
+    cases hg : ghost s.log op.id with
+    | unset => rfl
+    | done => rw [hg] at hu; cases hu
+    | pending l d' m => rw [hg] at hu; simp only [ghostState] at hu; split at hu <;> cases hu
+  · rintro ⟨hg, hm⟩
+    exact ⟨by rw [hrep, hg]; rfl, hm⟩
+
+/-- **converse of `execute_requires`**: execution succeeds iff the log holds an accepted schedule of
+the id with nothing about it accepted since (`ghost = pending l d m`), the delay `d` has elapsed
+since ledger `l`, and the predecessor is zero or was executed -/
+theorem execute_succeeds_iff_history {s : State} (hi : Inv s) (op : Operation) :
+    (∃ s', setExecute s op = .ok s') ↔
+      (∃ l d m, ghost s.log op.id = .pending l d m ∧ elapsed l d s.now) ∧
+      (op.pred = Id.zero ∨ ghost s.log op.pred = .done) := by
+  rw [execute_succeeds_iff]
+  obtain ⟨_, _, _, _, hready, _⟩ := state_reported_correctly hi op.id
+  obtain ⟨_, _, _, _, _, hdone⟩ := state_reported_correctly hi op.pred
+  have e1 : getOperationState s op.id = .ready ↔ isOperationReady s op.id = true := by
+    unfold isOperationReady; constructor
+    · intro h; rw [h]; rfl
+    · intro h; simpa using h
+  have e2 : getOperationState s op.pred = .done ↔ isOperationDone s op.pred = true := by
+    unfold isOperationDone; constructor
+    · intro h; rw [h]; rfl
+    · intro h; simpa using h
+  rw [e1, e2, hready, hdone]
+
+/-- an operation that was scheduled (with a delay the schedule call accepted), has not been
+cancelled or executed since, whose delay has elapsed and whose predecessor is zero or executed CAN
+be executed -/
+theorem can_execute {s : State} (hi : Inv s) {op : Operation} {newer older : List Ev} {l d m : Nat}
+    (hlog : s.log = newer ++ Ev.sched op.id l d m :: older) (hnew : ∀ e ∈ newer, e.id ≠ op.id)
+    (hel : elapsed l d s.now) (hp : op.pred = Id.zero ∨ ghost s.log op.pred = .done) :
+    ∃ s', setExecute s op = .ok s' :=
+  (execute_succeeds_iff_history hi op).mpr ⟨⟨l, d, m, ghost_of_split hlog hnew, hel⟩, hp⟩
+
+/-- cancelling succeeds iff the last accepted call about the id is a schedule -/
+theorem cancel_succeeds_iff_history {s : State} (hi : Inv s) (id : Id) :
+    (∃ s', cancel s id = .ok s') ↔ ∃ l d m, ghost s.log id = .pending l d m := by
+  rw [cancel_succeeds_iff]
+  obtain ⟨_, _, _, hpend, _, _⟩ := state_reported_correctly hi id
+  rw [← hpend]
+  unfold isOperationPending
+  constructor
+  · rintro (h | h) <;> rw [h] <;> rfl
+  · intro h
+    by_cases hw : getOperationState s id = .waiting
+    · exact Or.inl hw
+    · right; simpa [hw] using h
+
+/-- non-vacuity: after the minimum delay is set, an unset operation can be scheduled with exactly
+that delay and not with one ledger less; it can be cancelled; once the delay is over it can be
+executed, and not one ledger earlier -/
+example : (schedule (run (init 100) [.setMinDelay 5]) ⟨7, 0, [1], Id.zero, 0⟩ 5).toBool = true ∧
+    (schedule (run (init 100) [.setMinDelay 5]) ⟨7, 0, [1], Id.zero, 0⟩ 4).toBool = false ∧
+    (cancel (run (init 100) [.setMinDelay 5, .schedule ⟨7, 0, [1], Id.zero, 0⟩ 5])
+      (Operation.id ⟨7, 0, [1], Id.zero, 0⟩)).toBool = true ∧
+    (setExecute (run (init 100) [.setMinDelay 5, .schedule ⟨7, 0, [1], Id.zero, 0⟩ 5, .advance 5])
+      ⟨7, 0, [1], Id.zero, 0⟩).toBool = true ∧
+    (setExecute (run (init 100) [.setMinDelay 5, .schedule ⟨7, 0, [1], Id.zero, 0⟩ 5, .advance 4])
+      ⟨7, 0, [1], Id.zero, 0⟩).toBool = false := by decide
+/-- a predecessor that is scheduled but not executed blocks; once executed it does not -/
+example : (setExecute (run (init 100) [.setMinDelay 0, .schedule ⟨7, 0, [], Id.zero, 0⟩ 0,
+      .schedule ⟨7, 0, [], Operation.id ⟨7, 0, [], Id.zero, 0⟩, 1⟩ 0])
+      ⟨7, 0, [], Operation.id ⟨7, 0, [], Id.zero, 0⟩, 1⟩).toBool = false ∧
+    (setExecute (run (init 100) [.setMinDelay 0, .schedule ⟨7, 0, [], Id.zero, 0⟩ 0,
+      .schedule ⟨7, 0, [], Operation.id ⟨7, 0, [], Id.zero, 0⟩, 1⟩ 0, .setExecute ⟨7, 0, [], Id.zero, 0⟩])
+      ⟨7, 0, [], Operation.id ⟨7, 0, [], Id.zero, 0⟩, 1⟩).toBool = true := by decide
+
 /-! ### why ledgers 0 and 1 are excluded -/
 
 /-- At ledger 1 an accepted schedule with delay 0 stores the ready ledger 1 = `DONE_LEDGER`:
